@@ -920,6 +920,152 @@ Proof.
   exists x. destruct (resolve_encode_lemma v m x set Hx) as (H1 & H2 & _). auto.
 Qed.
 
+(* ------------------------------------------------------------------ byte width of the index array (C12-4) *)
+
+(** every symbol is in the most degenerate gapped DNA alphabet (bases, IUPAC ambiguity letters, "-", "?") *)
+Definition valid_dna (s : str) : Prop := Forall (fun c => In c dna_dga_new) s.
+
+Lemma canon_valid s : canon_str s -> valid_dna s.
+Proof.
+  unfold canon_str, valid_dna. apply Forall_impl. intros c Hc.
+  unfold canonical, bases in Hc. apply memZ_In.
+  cbn in Hc. destruct Hc as [<-|[<-|[<-|[<-|[]]]]]; reflexivity.
+Qed.
+
+Lemma translate_as_window aa s start rc :
+  translate aa s start rc =
+  (let seq := to_kmer_indices (window true s start rc) in
+   if rc then rev (convert minus_src (code_seq aa) seq) else convert plus_src (code_seq aa) seq).
+Proof. destruct rc; reflexivity. Qed.
+
+Lemma translate_pinned_as_window aa s start rc :
+  translate_pinned aa s start rc =
+  (let seq := to_kmer_indices (window false s start rc) in
+   if rc then rev (convert minus_src (code_seq aa) seq) else convert plus_src (code_seq aa) seq).
+Proof. destruct rc; reflexivity. Qed.
+
+Lemma In_skipn_In {A} (x : A) n l : In x (skipn n l) -> In x l.
+Proof. intros H. rewrite <- (firstn_skipn n l). apply in_or_app. right. exact H. Qed.
+Lemma In_firstn_In {A} (x : A) n l : In x (firstn n l) -> In x l.
+Proof. intros H. rewrite <- (firstn_skipn n l). apply in_or_app. left. exact H. Qed.
+
+Lemma In_slice_from {A} (x : A) l st : In x (slice_from l st) -> In x l.
+Proof. unfold slice_from. apply In_skipn_In. Qed.
+Lemma In_slice_to {A} (x : A) l st : In x (slice_to l st) -> In x l.
+Proof. unfold slice_to. apply In_firstn_In. Qed.
+
+Lemma In_window fm s start rc x : In x (window fm s start rc) -> In x s.
+Proof.
+  unfold window. cbv zeta.
+  set (dna := if start =? 0 then s else if fm && rc then slice_to s (Z.max (zlen s - start) 0) else slice_from s start).
+  assert (Hd : forall y, In y dna -> In y s).
+  { unfold dna. intros y. destruct (start =? 0); [auto|]. destruct (fm && rc); [apply In_slice_to|apply In_slice_from]. }
+  intros H. apply Hd.
+  destruct (zlen dna mod 3 =? 0); [exact H|]. destruct (fm && rc); [eapply In_slice_from|eapply In_slice_to]; exact H.
+Qed.
+
+Lemma zlen_skipn_le {A} n (l : list A) : zlen (skipn n l) <= zlen l.
+Proof. unfold zlen. rewrite skipn_length. lia. Qed.
+Lemma zlen_firstn_le {A} n (l : list A) : zlen (firstn n l) <= zlen l.
+Proof. unfold zlen. rewrite firstn_length. lia. Qed.
+
+Lemma zlen_window fm s start rc : zlen (window fm s start rc) <= zlen s.
+Proof.
+  unfold window. cbv zeta.
+  set (dna := if start =? 0 then s else if fm && rc then slice_to s (Z.max (zlen s - start) 0) else slice_from s start).
+  assert (Hd : zlen dna <= zlen s).
+  { unfold dna. destruct (start =? 0); [lia|]. destruct (fm && rc); [apply zlen_firstn_le|apply zlen_skipn_le]. }
+  destruct (zlen dna mod 3 =? 0); [exact Hd|].
+  destruct (fm && rc); [pose proof (zlen_skipn_le (Z.to_nat (if zlen dna mod 3 <? 0 then Z.max 0 (zlen dna mod 3 + zlen dna) else Z.min (zlen dna mod 3) (zlen dna))) dna)
+                       |pose proof (zlen_firstn_le (Z.to_nat (if - (zlen dna mod 3) <? 0 then Z.max 0 (- (zlen dna mod 3) + zlen dna) else Z.min (- (zlen dna mod 3)) (zlen dna))) dna)];
+    unfold slice_from, slice_to; cbv zeta; lia.
+Qed.
+
+Lemma zlen_chunks3 {A} (l : list A) : 3 * zlen (chunks3 l) <= zlen l.
+Proof.
+  induction l using list_ind3; cbn [chunks3]; rewrite ?zlen_cons, ?zlen_nil; try lia.
+  pose proof (zlen_nonneg l). lia.
+Qed.
+
+Lemma zlen_to_kmer_indices dna : 3 * zlen (to_kmer_indices dna) <= zlen dna.
+Proof.
+  unfold to_kmer_indices. rewrite zlen_map.
+  pose proof (zlen_chunks3 (map (mono_index new_monomers) dna)) as H. rewrite zlen_map in H. exact H.
+Qed.
+
+Lemma alphabet_width : get_array_type_width (zlen codon_words) = 1.
+Proof. vm_compute. reflexivity. Qed.
+
+(** the code before repair C12-4 is right below 256 codons, whatever the symbols *)
+Lemma translate_w_guarded_lemma fm aa s start rc :
+  zlen s < 768 -> translate_w fm false aa s start rc = translate_w fm true aa s start rc.
+Proof.
+  intros Hl. unfold translate_w. cbv zeta. rewrite alphabet_width.
+  pose proof (zlen_to_kmer_indices (window fm s start rc)) as H1.
+  pose proof (zlen_window fm s start rc) as H2.
+  pose proof (zlen_nonneg (to_kmer_indices (window fm s start rc))) as H3.
+  replace (get_array_type_width (zlen (to_kmer_indices (window fm s start rc)))) with 1; [reflexivity|].
+  unfold get_array_type_width. destruct (zlen (to_kmer_indices (window fm s start rc)) <? 2 ^ 8) eqn:E; [reflexivity|lia].
+Qed.
+
+(** one byte per index reproduces the index list when every index fits a byte *)
+Definition index_range_check : bool :=
+  forallb (fun w => let i := kmer_index3 (mono3 w) in (0 <=? i) && (i <? 256)) dga_words.
+Lemma index_range_checked : index_range_check = true.
+Proof. vm_compute. reflexivity. Qed.
+
+Lemma tobytes_1 idx : Forall (fun i => 0 <= i < 256) idx -> tobytes 1 idx = idx.
+Proof.
+  induction 1 as [|i r Hi Hr IH]; [reflexivity|].
+  unfold tobytes in *. cbn [flat_map Z.to_nat Pos.to_nat Pos.iter_op Nat.add le_bytes app].
+  rewrite IH. f_equal. apply Z.mod_small. exact Hi.
+Qed.
+
+Lemma indices_fit_byte dna : valid_dna dna -> Forall (fun i => 0 <= i < 256) (to_kmer_indices dna).
+Proof.
+  intros Hv. unfold to_kmer_indices. rewrite chunks3_map, map_map. apply Forall_forall.
+  intros i Hi. apply in_map_iff in Hi. destruct Hi as (w & <- & Hw).
+  destruct (chunks3_In w _ Hw) as (a & b & c & -> & Ha & Hb & Hc).
+  unfold valid_dna in Hv. rewrite Forall_forall in Hv.
+  pose proof index_range_checked as H. unfold index_range_check in H. rewrite forallb_forall in H.
+  specialize (H [a; b; c] (In_product3 _ a b c (Hv _ Ha) (Hv _ Hb) (Hv _ Hc))). cbv zeta in H.
+  fold (mono3 [a; b; c]). lia.
+Qed.
+
+(** with repair C12-4 the explicit-width code IS the width-free model, for every length *)
+Lemma translate_w_fixed_lemma fm aa s start rc :
+  valid_dna s ->
+  translate_w fm true aa s start rc = (if fm then translate else translate_pinned) aa s start rc.
+Proof.
+  intros Hv. unfold translate_w. cbv zeta. rewrite alphabet_width.
+  assert (Hw : valid_dna (window fm s start rc)).
+  { unfold valid_dna in *. rewrite Forall_forall in *. intros x Hx. apply Hv. eapply In_window. exact Hx. }
+  rewrite (tobytes_1 _ (indices_fit_byte _ Hw)).
+  destruct fm; [rewrite translate_as_window|rewrite translate_pinned_as_window]; reflexivity.
+Qed.
+
+(** without it the answer is wrong from 256 codons on: ATG x 256, code 1, plus strand *)
+Definition refute_long : str := concat (repeat [65; 84; 71] 256).
+Lemma dtype_refute_checks :
+  canon_strb refute_long = true /\ zlen refute_long = 768 /  str_eqb (translate_w true false (snd (fst refute_code)) refute_long 0 false)
+          (frame_plus (ncbi_tbl (fst (fst refute_code))) refute_long 0) = false /  str_eqb (translate_w false false (snd (fst refute_code)) refute_long 0 false)
+          (frame_plus (ncbi_tbl (fst (fst refute_code))) refute_long 0) = false /  zlen (translate_w false false (snd (fst refute_code)) refute_long 0 false) = 512.
+Proof. vm_compute. repeat split. Qed.
+
+Lemma translate_w_unrepaired_refuted_lemma :
+  exists id aa st s,
+    In (id, aa, st) new_codes /\ canon_str s /\ zlen s = 768 /    (forall fm, translate_w fm false aa s 0 false <> frame_plus (ncbi_tbl id) s 0).
+Proof.
+  destruct refute_checks as (H1 & _ & _). destruct dtype_refute_checks as (D1 & D2 & D3 & D4 & _).
+  exists (fst (fst refute_code)), (snd (fst refute_code)), (snd refute_code), refute_long.
+  split.
+  { replace (fst (fst refute_code), snd (fst refute_code), snd refute_code) with refute_code
+      by (destruct refute_code as [[? ?] ?]; reflexivity).
+    apply hd_In, H1. }
+  split; [apply canon_strb_sound, D1|]. split; [exact D2|].
+  intros [|]; apply str_eqb_neq; assumption.
+Qed.
+
 (* ------------------------------------------------------------------ stop codons: trimmed, kept or rejected *)
 
 Definition ropt {A} (r : res A) : option A := match r with Ok a => Some a | Err _ => None end.
@@ -1082,16 +1228,17 @@ Qed.
 (** new Sequence.get_translation *)
 Lemma seq_get_translation_new_spec_lemma id aa st s ok inc trim :
   In (id, aa, st) new_codes -> canon_str s ->
-  ropt (seq_get_translation_new true aa s ok inc trim)
+  ropt (seq_get_translation_new true true aa s ok inc trim)
   = stop_spec (ncbi_tbl id) (eff_trim_new inc trim) inc ok s.
 Proof.
   intros Hin Hs. rewrite stop_spec_unfold. unfold eff_trim_new, seq_get_translation_new.
   assert (Hfin : forall seq, canon_str seq ->
-     ropt (let pep := translate aa seq 0 false in
+     ropt (let pep := translate_w true true aa seq 0 false in
            if negb inc && has_char ch_star pep then Err E_Alpha
            else if negb ok && (has_char ch_gap pep || has_char ch_X pep) then Err E_Alpha else Ok pep)
      = (let p := translate_spec (ncbi_tbl id) seq in if negb inc && has_stop p then None else Some p)).
   { intros seq Hseq. cbv zeta.
+    rewrite (translate_w_fixed_lemma true aa seq 0 false (canon_valid seq Hseq)).
     rewrite (translate_plus_spec_lemma id aa st seq 0 Hin Hseq) by lia.
     unfold frame_plus. cbn [Z.to_nat skipn].
     destruct (translate_spec_clean id aa st seq Hin Hseq) as [-> ->].
@@ -1183,8 +1330,6 @@ Proof. exact (conj (proj1 old_bases_lemma) (conj (proj2 old_bases_lemma) ncbi_he
 
 (* ------------------------------------------------------------------ any valid DNA string, plus strand *)
 
-(** every symbol is in the most degenerate gapped DNA alphabet (bases, IUPAC ambiguity letters, "-", "?") *)
-Definition valid_dna (s : str) : Prop := Forall (fun c => In c dna_dga_new) s.
 Definition general_lookup (tbl : list Z) (w : list Z) : Z :=
   if forallb canonicalb w then spec_lookup tbl w else expected_incomplete w.
 
